@@ -35,6 +35,24 @@ CHECKS = {
   "text": "Decides on every CFG path of every analysed @memoize wrapper that a cache miss is followed by an insert under the lookup key before any normal return, that nothing else runs before the lookup, that the hit path only clones, and that nothing else touches or evicts the cache field. Sound for all inputs of the analysed wrappers (27 test grammars, bootstrap parser, macro test; corpus in thorough); the wrapper template is one per rule kind x directive set.",
   "note": TRUST + "I-level verdict: covers the analysed generated instances; generalises to all grammars only as far as the wrapper template is compositional.",
  },
+ "C09": {
+  "category": "other",
+  "technique": "dataflow identity rules over MIR (closure-capture resolution) for range/slice measurement + runtime identities",
+  "text": "For every analysed @position/@string wrapper: the range and the string slice are range_until/slice_until(entry state of the rule, state of the body's Ok), taken inside the map_with_state callback of the body evaluated from a clone of that same entry state, and stored unchanged in `position`; the runtime functions are exactly start_index..start_index, partial_string[..difference] and state-preserving maps; PegPosition returns the stored range or delegates per variant. Byte exactness follows from the cursor invariant (C04); 'after the caller's whitespace' from C08.",
+  "note": TRUST + "Nesting/order of ranges follows from state threading (C01) and is not separately decided.",
+ },
+ "C10": {
+  "category": "other",
+  "technique": "error-discipline (must-consume) path analysis over MIR of generated code and runtime + finite-domain evaluation of record_error",
+  "text": "On every path of every generated function and runtime helper each ParseResult/ParseError value is returned, ?-propagated, passed to a modelled combinator, or folded into the surviving state with record_error; drops are accepted only by role (negative lookahead, @char alternatives at the same offset, left-recursion arms). record_error is decided over {None, <, =, >} to keep the larger-or-equal position; report_error/report_farthest_error build errors at the state's own offset; ChoiceHelper folds every failed alternative and runs an alternative only while no result is set; terminal matchers report on the unadvanced entry state; @leftrec exits cannot return the seed sentinel. The concrete furthest offset for a given input is the composition of these clauses; it is not computed.",
+  "note": TRUST + "Which state survives a construct (state threading) is C01's subject.",
+ },
+ "C14": {
+  "category": "other",
+  "technique": "structural rules on hook call sites in generated wrappers (argument provenance, dominance of Ok returns by check successes) + generator field read/write sets",
+  "text": "For every analysed rule with hooks and all inputs: each @check is called on a reference to the final rule value (the one returned in Ok) plus the user context iff configured, every Ok return is dominated by the true edge of every check, a false check returns an ordinary Err reported on the value's own state; @char checks run on the next character of the entry state and dominate all alternatives; @extern functions receive s(entry) and Ok((r,n))/Err(e) map to r.into()+advance_safe(entry,n) / the extern error on the entry state. Generator: has_user_context has exactly the expected writers and both hook templates read it.",
+  "note": TRUST + "I-level on the analysed instances (6 check sites, 1 @char check, 3 externs in the workspace; corpus in thorough).",
+ },
  "C19": {
   "category": "other",
   "technique": "dominance/post-dominance pairing rule over generated rule functions + effect/type rules on tracer",
@@ -45,4 +63,4 @@ CHECKS = {
 
 _PENDING = "check not built yet in this round (design in DESIGN.md §3); no verdict is claimed until it is"
 NOT_APPLICABLE = {pid: _PENDING for pid in
-  ["C01","C02","C03","C08","C09","C10","C11","C12","C13","C14","C15","C16","C17","C18"]}
+  ["C01","C02","C03","C08","C11","C12","C13","C15","C16","C17","C18"]}
